@@ -255,6 +255,8 @@ def run(ctx):
     # members that share a name and a referenced type, each with its own use (SIZE / OPTIONAL / DEFAULT / tag): the compiled-type cache
     from .. import aliasfam
     aliasfam.run_c01(ctx, ctx.rng, ctx.n(60, 800), impl, ['jer', 'xer'], py_equal, only_text_safe=True)
+    from .. import timefam as _timefam
+    _timefam.run(ctx, 'C02', ctx.rng, ctx.n(25, 300), _timefam.TXT)
 
 
 def replay(ctx, path):
